@@ -41,10 +41,12 @@ def faults(spec, poi):
                     m2['data'] = [x + 1.0 for x in m['data']]
                 else:
                     continue
-                for where in ('after', 'before'):
+                for pos in range(len(s['modifiers']) + 1):       # every position of the list, adjacent to the original or not
                     s2 = copy.deepcopy(spec)
                     mods = s2['channels'][ci]['samples'][si]['modifiers']
-                    mods.insert(mi + 1 if where == 'after' else mi, m2)
+                    mods.insert(pos, m2)
+                    between = pos - mi - 1 if pos > mi else mi - pos
+                    where = ('after' if pos > mi else 'before') + (', %d modifiers in between' % between if between else '')
                     yield 'dup-modifier', 'channel %d sample %d: %s/%s listed twice (%s) with different data' % (ci, si, m['type'], m['name'], where), s2, poi
             # F4 sample data length differs from the channel's bin count
             if len(c['samples']) > 1:
@@ -118,12 +120,14 @@ def faults(spec, poi):
     for ci, c in enumerate(chans):
         for cj, c2 in enumerate(chans):
             if ci != cj and len(c['samples'][0]['data']) != len(c2['samples'][0]['data']):
-                s2 = copy.deepcopy(spec)
-                for cc in (s2['channels'][ci], s2['channels'][cj]):
-                    cc['samples'][0]['modifiers'] = [m for m in cc['samples'][0]['modifiers'] if m['type'] != 'shapefactor'] + \
-                        [{'name': 'sf_shared', 'type': 'shapefactor', 'data': None}]
-                yield 'shared-binwise-size', 'shapefactor sf_shared on channel %d (%d bins) and channel %d (%d bins)' % (
-                    ci, len(c['samples'][0]['data']), cj, len(c2['samples'][0]['data'])), s2, poi
+                for si in range(len(c['samples'])):
+                    for sj in range(len(c2['samples'])):
+                        s2 = copy.deepcopy(spec)
+                        for smp in (s2['channels'][ci]['samples'][si], s2['channels'][cj]['samples'][sj]):
+                            smp['modifiers'] = [m for m in smp['modifiers'] if m['type'] != 'shapefactor'] + \
+                                [{'name': 'sf_shared', 'type': 'shapefactor', 'data': None}]
+                        yield 'shared-binwise-size', 'shapefactor sf_shared on channel %d sample %d (%d bins) and channel %d sample %d (%d bins)' % (
+                            ci, si, len(c['samples'][0]['data']), cj, sj, len(c2['samples'][0]['data'])), s2, poi
     # F6b a staterror shared by two channels, carried by one sample in both and by another sample in only one of them
     for ci, c in enumerate(chans):
         for cj, c2 in enumerate(chans):
@@ -158,10 +162,85 @@ def faults(spec, poi):
                 if t2 in ts:
                     continue
                 for ci, c in enumerate(chans):
-                    s2 = copy.deepcopy(spec)
-                    s2['channels'][ci]['samples'][-1]['modifiers'].append({'name': nm, 'type': t2, 'data': d2})
-                    yield 'conflicting-paramset', 'parameter %s used as %s and as %s (channel %d)' % (nm, t, t2, ci), s2, poi
+                    for si in range(len(c['samples'])):
+                        for front in (False, True):
+                            s2 = copy.deepcopy(spec)
+                            mods = s2['channels'][ci]['samples'][si]['modifiers']
+                            mods.insert(0 if front else len(mods), {'name': nm, 'type': t2, 'data': d2})
+                            yield 'conflicting-paramset', 'parameter %s used as %s and as %s (channel %d sample %d, %s of the modifier list)' % (
+                                nm, t, t2, ci, si, 'front' if front else 'end'), s2, poi
                 break
+    # F7b a non-shared (shapesys) name declared on two samples: every ordered pair of places, adjacent in listing order or
+    #     separated by any number of unrelated samples, in one channel or across channels
+    flat = [(ci, si) for ci, c in enumerate(chans) for si in range(len(c['samples']))]
+    base = spec
+    places = [(ci, si, m['name']) for ci, c in enumerate(chans) for si, smp in enumerate(c['samples']) for m in smp['modifiers'] if m['type'] == 'shapesys']
+    if not places and len(flat) >= 2:          # no shapesys in this spec: give every sample in turn one (a well-formed base), then reuse its name
+        places = [(ci, si, None) for ci, si in flat]
+    for ci, si, nm in places:
+        for cj, sj in flat:
+            if (cj, sj) == (ci, si):
+                continue
+            s2 = copy.deepcopy(base)
+            if nm is None:
+                a = s2['channels'][ci]['samples'][si]
+                a['modifiers'].append({'name': 'shapesys_x', 'type': 'shapesys', 'data': [1.0 + 0.5 * k for k in range(len(a['data']))]})
+            b = s2['channels'][cj]['samples'][sj]
+            b['modifiers'].append({'name': nm or 'shapesys_x', 'type': 'shapesys', 'data': [2.0 + 0.25 * k for k in range(len(b['data']))]})
+            between = abs(flat.index((cj, sj)) - flat.index((ci, si))) - 1
+            yield 'nonshared-name-reuse', 'shapesys/%s declared on channel %d sample %d and again on channel %d sample %d (%d samples in between in listing order)' % (
+                nm or 'shapesys_x', ci, si, cj, sj, between), s2, poi
+    # F7c one name used with two modifier TYPES: every pair of types, on one sample / two samples of a channel / two channels.
+    #     Which pairs make conflicting parameter demands is decided by the Coq model (build, proved total): normsys + histosys
+    #     on one name is a legal correlated pair, every other pair demands incompatible parameter sets.
+    def mod_of(t, name, smp):
+        n = len(smp['data'])
+        d = {'normsys': {'lo': 0.9, 'hi': 1.1}, 'histosys': {'lo_data': [x * 0.5 for x in smp['data']], 'hi_data': [x * 1.5 + 1 for x in smp['data']]},
+             'shapesys': [1.0 + 0.5 * k for k in range(n)], 'staterror': [0.5 + 0.25 * k for k in range(n)]}.get(t)
+        return {'name': name, 'type': t, 'data': d}
+
+    def with_lumi_cfg(s2):
+        if not any(p['name'] == 'lumi' for p in s2['parameters']):
+            s2['parameters'].append(dict(name='lumi', auxdata=[1.0], sigmas=[0.125], inits=[1.0], bounds=[[0.0, 10.0]]))
+
+    def placements():
+        # (place of the first use, place of the second use): same sample, two samples of one channel, two channels
+        for ci, si in flat:
+            yield 'one sample', (ci, si), (ci, si)
+        for ci, si in flat:
+            for cj, sj in flat:
+                if ci == cj and si != sj:
+                    yield 'two samples of channel %d' % ci, (ci, si), (cj, sj)
+                elif ci != cj:
+                    yield 'channels %d and %d' % (ci, cj), (ci, si), (cj, sj)
+
+    # (i) a name the spec already uses, given one more type somewhere
+    for nm, ts in sorted(names.items()):
+        users = [(ci, si) for ci, c in enumerate(chans) for si, smp in enumerate(c['samples']) if any(m['name'] == nm for m in smp['modifiers'])]
+        for t2 in engine.TYPES:
+            if t2 in ts or (t2 == 'lumi' and nm != 'lumi'):
+                continue
+            for cj, sj in flat:
+                s2 = copy.deepcopy(spec)
+                b = s2['channels'][cj]['samples'][sj]
+                b['modifiers'].append(mod_of(t2, nm, b))
+                if 'lumi' in (t2,) + tuple(ts):
+                    with_lumi_cfg(s2)
+                rel = 'a sample already using the name' if (cj, sj) in users else ('another sample of a channel using it' if any(ci == cj for ci, _ in users) else 'another channel')
+                yield 'name-collision', 'name %s used as %s and as %s: %s added on channel %d sample %d (%s)' % (nm, '/'.join(sorted(ts)), t2, t2, cj, sj, rel), s2, poi
+    # (ii) every pair of types on a fresh name
+    for i1, t1 in enumerate(engine.TYPES):
+        for t2 in engine.TYPES[i1 + 1:]:
+            nm = 'lumi' if 'lumi' in (t1, t2) else 'clash'
+            for what, (ci, si), (cj, sj) in placements():
+                s2 = copy.deepcopy(spec)
+                a, b = s2['channels'][ci]['samples'][si], s2['channels'][cj]['samples'][sj]
+                if nm == 'lumi':
+                    with_lumi_cfg(s2)
+                for smp, t in ((a, t1), (b, t2)):
+                    if not any(m['name'] == nm and m['type'] == t for m in smp['modifiers']):
+                        smp['modifiers'].append(mod_of(t, nm, smp))
+                yield 'name-collision', 'name %s used as %s and as %s: %s (channel %d sample %d / channel %d sample %d)' % (nm, t1, t2, what, ci, si, cj, sj), s2, poi
     # F8 override of the wrong length
     info = engine.par_info(spec)
     for nm, (kind, n) in sorted(info.items()):
@@ -190,15 +269,18 @@ def faults(spec, poi):
             yield 'undefined-poi', 'poi_name %s has %d components' % (nm, n), copy.deepcopy(spec), nm
             break
     # F10 lumi modifier without lumi settings
-    s2 = copy.deepcopy(spec)
-    s2['parameters'] = [p for p in s2['parameters'] if p['name'] != 'lumi']
-    if not any(m['type'] == 'lumi' for c in s2['channels'] for s in c['samples'] for m in s['modifiers']):
-        s2['channels'][0]['samples'][0]['modifiers'].append({'name': 'lumi', 'type': 'lumi', 'data': None})
-    yield 'lumi-without-settings', 'lumi modifier, no parameter configuration for lumi', s2, poi
-    for drop in ('auxdata', 'sigmas', 'inits', 'bounds'):
-        s3 = copy.deepcopy(s2)
-        s3['parameters'].append({k: v for k, v in dict(name='lumi', auxdata=[1.0], sigmas=[0.1], inits=[1.0], bounds=[[0.0, 10.0]]).items() if k != drop})
-        yield 'lumi-without-settings', 'lumi parameter configuration lacks %s' % drop, s3, poi
+    has_lumi = any(m['type'] == 'lumi' for c in spec['channels'] for s in c['samples'] for m in s['modifiers'])
+    for ci, si in ([(None, None)] if has_lumi else flat):
+        s2 = copy.deepcopy(spec)
+        s2['parameters'] = [p for p in s2['parameters'] if p['name'] != 'lumi']
+        if not has_lumi:
+            s2['channels'][ci]['samples'][si]['modifiers'].append({'name': 'lumi', 'type': 'lumi', 'data': None})
+        at = '' if has_lumi else ' (lumi modifier on channel %d sample %d)' % (ci, si)
+        yield 'lumi-without-settings', 'lumi modifier, no parameter configuration for lumi' + at, s2, poi
+        for drop in ('auxdata', 'sigmas', 'inits', 'bounds'):
+            s3 = copy.deepcopy(s2)
+            s3['parameters'].append({k: v for k, v in dict(name='lumi', auxdata=[1.0], sigmas=[0.1], inits=[1.0], bounds=[[0.0, 10.0]]).items() if k != drop})
+            yield 'lumi-without-settings', 'lumi parameter configuration%s lacks %s' % (at, drop), s3, poi
 
 
 def outcome(spec, poi):
